@@ -15,6 +15,7 @@ import (
 	"context"
 	"fmt"
 	"math"
+	"os"
 	"reflect"
 	"regexp"
 	"sort"
@@ -58,6 +59,9 @@ type Case struct {
 	N     int    `json:"n,omitempty"`    // literal argument count of call-like templates
 	Name  string `json:"name,omitempty"` // member name
 	Slots []Slot `json:"slots"`
+	// Subst records that the generator replaced a drawn shape (known finding
+	// excluded by construction); it only feeds a class counter.
+	Subst string `json:"subst,omitempty"`
 }
 
 // ---------------------------------------------------------------- values
@@ -320,7 +324,31 @@ var knownConv = map[string]string{
 	"makeslice": "toInt", "makechan": "toInt", "slice": "toInt", "index": "toInt", "letmapitem": "toInt",
 }
 
+// Known finding F-typed-nil-through-interface: isNil() (vm/vm.go) reports a
+// typed nil pointer as nil but not an interface value holding that pointer, so
+// `x ?? y` keeps the wrapped nil pointer and equal() (in, switch) does not
+// match it with nil. Excluded by construction (the pointer is replaced by
+// new(int64)) and counted; C20_KEEP_KNOWN=1 generates the shape.
+var nilPtrPos = map[string][]int{"coalesce": {0}, "in": {0}, "switch": {0, 1}}
+
+func nilPtrShape(c Case, i int) bool {
+	if i >= len(c.Slots) || c.Slots[i].V.K != "pt_nil" || !effIface(c.Slots[i].Chain) {
+		return false
+	}
+	for _, p := range nilPtrPos[c.T] {
+		if p == i {
+			return true
+		}
+	}
+	return false
+}
+
+var keepKnown = os.Getenv("C20_KEEP_KNOWN") != ""
+
 func knownPtrShape(c Case, i int) bool {
+	if nilPtrShape(c, i) {
+		return false
+	}
 	if i >= len(c.Slots) || c.Slots[i].V.cat() != "ptr" || !effIface(c.Slots[i].Chain) {
 		return false
 	}
@@ -503,6 +531,15 @@ func genCase(t *rapid.T) Case {
 	if !any {
 		i := rapid.IntRange(0, len(c.Slots)-1).Draw(t, "forced-slot")
 		c.Slots[i].Chain = genChain(t, c.Slots[i].V, true)
+	}
+	if !keepKnown {
+		for i := range c.Slots {
+			if nilPtrShape(c, i) {
+				// excluded by construction: same template and chain, non-nil pointer
+				c.Slots[i].V = Val{K: "pt_int0"}
+				c.Subst = "typed-nil-through-interface"
+			}
+		}
 	}
 	return c
 }
@@ -937,6 +974,9 @@ func oracle(c Case, o *h.Obs) *h.Fail {
 			o.Class("ptr-through-interface|" + c.T)
 		}
 	}
+	if c.Subst != "" {
+		o.Class("by-construction-excluded:" + c.Subst + "|" + c.T)
+	}
 
 	b := run(c, baseSrc)
 	x := run(c, chSrc)
@@ -986,6 +1026,11 @@ func oracle(c Case, o *h.Obs) *h.Fail {
 	}
 	hop := differingHop(c, b, clause)
 	for i := range c.Slots {
+		if nilPtrShape(c, i) && (hop == lastHop(c.Slots[i]) || strings.HasPrefix(hop, fmt.Sprintf("slot%d:", i))) {
+			return h.Failf("C20|typed-nil-through-interface-not-nil|isNil", "%s (template %s, last hop %s)\nbaseline program:\n%s\nchained program:\n%s", detail, tn, hop, baseSrc[len(prelude):], chSrc[len(prelude):])
+		}
+	}
+	for i := range c.Slots {
 		if knownPtrShape(c, i) && (hop == lastHop(c.Slots[i]) || strings.HasPrefix(hop, fmt.Sprintf("slot%d:", i))) {
 			// the known finding gets its own signature, one per conversion routine
 			// at fault; anything else keeps the generic one
@@ -1032,7 +1077,7 @@ func differingHop(c Case, b outcome, clause string) string {
 	return "multi:" + strings.Join(hs, "+")
 }
 
-const rule = "case = (template, operand value per slot, provenance chain per slot); templates: unary - ! ^, 17 binary operators, x[i], x[i:j], len, in, call, call argument, spread call, member, deref, for-in, switch subject/case, if/else-if, for condition, ternary, make sizes, send, receive (3 forms), close, delete, throw, x[i]=v, x.k=v, *x=v, defer, go, string repeat, typed literal element/key, ??, destructuring let/var, `a, b = m[k]`; values: nil, bools, ints (small or >=2^53), floats, strings, untyped/typed slices and maps, pointers (new(T), &v, typed nil pointer), channels (buffered, never blocking), script functions, struct values, a module; every value is created once in a prelude variable, the baseline uses the variable, the chained program routes it through 1..3 hops of {slice element, map entry [k] and .k, script call, Go id(), parentheses, ternary, ??, struct field typed interface or typed as the value}; excluded by construction: append-at-len and string element store, field store into a struct value, x++/x+=, &x, nil maps, for-in over an open channel; non-trivial = at least one slot's LAST hop is slice element, map entry, script call, Go call or interface-typed struct field (no template is a plain assignment); distinct by chained source text"
+const rule = "case = (template, operand value per slot, provenance chain per slot); templates: unary - ! ^, 17 binary operators, x[i], x[i:j], len, in, call, call argument, spread call, member, deref, for-in, switch subject/case, if/else-if, for condition, ternary, make sizes, send, receive (3 forms), close, delete, throw, x[i]=v, x.k=v, *x=v, defer, go, string repeat, typed literal element/key, ??, destructuring let/var, `a, b = m[k]`; values: nil, bools, ints (small or >=2^53), floats, strings, untyped/typed slices and maps, pointers (new(T), &v, typed nil pointer), channels (buffered, never blocking), script functions, struct values, a module; every value is created once in a prelude variable, the baseline uses the variable, the chained program routes it through 1..3 hops of {slice element, map entry [k] and .k, script call, Go id(), parentheses, ternary, ??, struct field typed interface or typed as the value}; excluded by construction: append-at-len and string element store, field store into a struct value, x++/x+=, &x, nil maps, for-in over an open channel, and the known finding typed-nil-through-interface (a typed nil pointer delivered as an interface value to the left of ??, to the left of in, or as switch subject/case: replaced by new(int64) and counted under by-construction-excluded:*; C20_KEEP_KNOWN=1 generates it); non-trivial = at least one slot's LAST hop is slice element, map entry, script call, Go call or interface-typed struct field (no template is a plain assignment); distinct by chained source text"
 
 func TestC20(t *testing.T) {
 	c := h.New(t, "C20")
